@@ -1695,7 +1695,9 @@ def merge_twin_branches(tree):
 
 def normalize(tree):
     n = Normalizer()
+    n_dec = expand_prologue_decorators(tree)
     tree = n.visit(tree)
+    n.counts['prologue_decorators'] = n_dec
     n.counts['iterate_self'] = iterate_self(tree)
     n.counts['filled_arrays'] = filled_arrays_to_fromiter(tree)
     n.counts['partials'] = partials_to_calls(tree)
@@ -1832,3 +1834,108 @@ def immediate_partials_to_calls(tree):
             return node
     T().visit(tree)
     return count[0]
+
+
+def expand_prologue_decorators(tree):
+    """N49 - a prologue decorator: a module level decorator (factory) whose wrapper runs some statements and then tail-calls the wrapped function with the very
+    arguments it received (`def wrapper(self, chrom, *args, **kwargs): <prologue>; return f(self, chrom, *args, **kwargs)`).  A function decorated with it is that
+    function with the prologue in front: the decorator is removed, the prologue is copied to the top of the body with the wrapper's named parameters renamed to the
+    function's own parameters and the factory's parameters replaced by the (constant / named) arguments of the decoration."""
+    import copy
+    top = {f.name: f for f in tree.body if isinstance(f, ast.FunctionDef)}
+
+    def wrapper_of(fac):
+        """(factory params+defaults, wrapped-function param name, wrapper def) when `fac` is a prologue decorator (factory or plain)"""
+        body = [s for s in fac.body if not (isinstance(s, ast.Expr) and isinstance(s.value, ast.Constant))]
+        # factory: def fac(p..): def decorate(f): def w(..): ...; return w; return decorate
+        if len(body) == 2 and isinstance(body[0], ast.FunctionDef) and isinstance(body[1], ast.Return) and isinstance(body[1].value, ast.Name) and body[1].value.id == body[0].name:
+            inner = wrapper_of(body[0])
+            if inner is not None and inner[0] is None:
+                return (fac.args, inner[1], inner[2])
+            # plain decorator: def decorate(f): def w(..): ...; return w
+            dec = body[0]
+            if len(fac.args.args) == 1 and not fac.args.defaults:
+                fparam = fac.args.args[0].arg
+                w = dec
+                wb = [s for s in w.body if not (isinstance(s, ast.Expr) and isinstance(s.value, ast.Constant))]
+                if wb and isinstance(wb[-1], ast.Return) and isinstance(wb[-1].value, ast.Call) and isinstance(wb[-1].value.func, ast.Name) and wb[-1].value.func.id == fparam:
+                    return (None, fparam, w)
+        return None
+    count = 0
+    for holder in [tree] + [c for c in ast.walk(tree) if isinstance(c, ast.ClassDef)]:
+        for fn in [f for f in holder.body if isinstance(f, ast.FunctionDef)]:
+            for d in list(fn.decorator_list):
+                name = d.func.id if isinstance(d, ast.Call) and isinstance(d.func, ast.Name) else (d.id if isinstance(d, ast.Name) else None)
+                if name not in top:
+                    continue
+                info = wrapper_of(top[name])
+                if info is None:
+                    continue
+                fargs, fparam, w = info
+                if (fargs is None) != isinstance(d, ast.Name):
+                    continue
+                call = w.body[-1].value if isinstance(w.body[-1], ast.Return) else None
+                wb = [s for s in w.body if not (isinstance(s, ast.Expr) and isinstance(s.value, ast.Constant))]
+                call = wb[-1].value
+                named = [a.arg for a in w.args.args]
+                # the tail call passes the wrapper's own parameters straight through
+                passed = [a.id if isinstance(a, ast.Name) else None for a in call.args if not isinstance(a, ast.Starred)]
+                if passed != named or len([a for a in call.args if isinstance(a, ast.Starred)]) != (1 if w.args.vararg else 0) or len(call.keywords) != (1 if w.args.kwarg else 0):
+                    continue
+                own = [a.arg for a in fn.args.args]
+                if len(own) < len(named):
+                    continue
+                prologue = wb[:-1]
+                stored = {n.id for s in prologue for n in ast.walk(s) if isinstance(n, ast.Name) and isinstance(n.ctx, (ast.Store, ast.Del))}
+                if stored & set(named) or any(isinstance(n, ast.Name) and n.id in {x for x in (w.args.vararg.arg if w.args.vararg else None, w.args.kwarg.arg if w.args.kwarg else None) if x}
+                                              for s in prologue for n in ast.walk(s)):
+                    continue
+                sub = {}
+                for wn, on in zip(named, own):
+                    if wn != on:
+                        sub[wn] = ast.Name(id=on, ctx=ast.Load())
+                if fargs is not None:
+                    fparams = [a.arg for a in fargs.args]
+                    bound = dict(zip(fparams, d.args))
+                    bound.update({k.arg: k.value for k in d.keywords if k.arg})
+                    for p_, dflt in zip(fparams[len(fparams) - len(fargs.defaults):], fargs.defaults):
+                        bound.setdefault(p_, dflt)
+                    if set(fparams) - set(bound) or any(not isinstance(v, (ast.Constant, ast.Name)) for v in bound.values()):
+                        continue
+                    if stored & set(fparams):
+                        continue
+                    sub.update(bound)
+                # locals of the prologue must not clash with names of the function
+                fn_names = {n.id for n in ast.walk(fn) if isinstance(n, ast.Name)} | set(own)
+                ren = {n: f'{n}__p{count}' for n in stored if n in fn_names}
+                new = []
+                for s in prologue:
+                    s2 = copy.deepcopy(s)
+
+                    class T(ast.NodeTransformer):
+                        def visit_Name(self, node):
+                            if node.id in ren:
+                                node.id = ren[node.id]
+                                return node
+                            if isinstance(node.ctx, ast.Load) and node.id in sub:
+                                return ast.copy_location(copy.deepcopy(sub[node.id]), node)
+                            return node
+
+                        def visit_ExceptHandler(self, node):
+                            if node.name in ren:
+                                node.name = ren[node.name]
+                            self.generic_visit(node)
+                            return node
+                    new.append(T().visit(s2))
+                k = 1 if fn.body and isinstance(fn.body[0], ast.Expr) and isinstance(fn.body[0].value, ast.Constant) else 0
+                for s2 in new:
+                    for n_ in ast.walk(s2):
+                        if hasattr(n_, 'lineno'):
+                            n_.lineno = fn.body[k].lineno if k < len(fn.body) else fn.lineno
+                            n_.end_lineno = n_.lineno
+                fn.body[k:k] = new
+                fn.decorator_list.remove(d)
+                count += 1
+    if count:
+        ast.fix_missing_locations(tree)
+    return count
